@@ -13,8 +13,8 @@ import (
 )
 
 var gxzComponents = map[string][]string{
-	"real":    {"cmd/gxz (main, processFile, reader/writer, signal handler code)", "internal/gflag", "internal/xlog", "github.com/ulikunitz/xz and lzma (whole library)"},
-	"stub":    {"verif/sim/simos (package os: in-memory file system, process exit, stdio)", "verif/sim/simsignal (os/signal)", "verif/sim/simterm (internal/term)"},
+	"real":    {"cmd/gxz (main, processFile, reader/writer, signal handler code)", "internal/gflag", "internal/xlog", "internal/term (IsTerminal, asked about a real pipe / /dev/null / regular file standing behind the simulated stdout)", "github.com/ulikunitz/xz and lzma (whole library)"},
+	"stub":    {"verif/sim/simos (package os: in-memory file system, process exit, stdio)", "verif/sim/simsignal (os/signal)", "verif/sim/simterm (only the mapping from the simulated descriptor to a real kernel object)"},
 	"oracles": {"executable model of the documented command line", "verif/ref/refxz, reflzma", "liblzma via cgo when linked"},
 }
 
@@ -32,7 +32,7 @@ func genPlainFile(r *sim.Rng, name string, max int) FileSpec {
 func genCompressedStream(r *sim.Rng, format string, max int) *checks.StreamRecipe {
 	pl := sim.GenPayload(r, max)
 	n := pl.Len()
-	dict := sim.Pick(r, []int{4096, 1 << 16, 1 << 18, 1 << 20})
+	dict := sim.Pick(r, []int{4096, 1 << 16, 1 << 18, 1 << 20, 6144, 3 << 15, 3 << 18}) // 2^n and 2^n + 2^(n-1): what xz-utils' header check accepts
 	if format == "xz" && max > 0 && r.Chance(1, 6) {
 		// an archive of several concatenated streams (cat a.xz b.xz), with stream padding
 		m := &checks.StreamRecipe{Kind: "multi"}
@@ -122,6 +122,8 @@ func genC10(r *sim.Rng, tier string, idx int) *GCase {
 		return genLongTruncated(r)
 	}
 	c := &GCase{Enumerate: true, PartialSeed: r.Uint64()}
+	c.FullSig = r.Chance(1, 8) || (tier == "thorough" && r.Bool())
+	c.StdoutKind = sim.Pick(r, []string{"", "", "", "devnull", "file"})
 	v := Inv{Preset: sim.Pick(r, []int{0, 0, 0, 1, -1}), Quiet: r.Intn(2)}
 	if tier == "thorough" && r.Chance(1, 20) {
 		v.Preset = r.Intn(7)
@@ -250,7 +252,7 @@ func genC10(r *sim.Rng, tier string, idx int) *GCase {
 
 // planList enumerates the kill and fault points of a run whose fault-free
 // execution performed the given mutating operations.
-func planList(kinds []string, nmeta int, armedMuts []int, armedReads int, inPath string, inLen int, seed uint64) []simos.Plan {
+func planList(kinds []string, nmeta int, armedMuts []int, armedReads int, inPath string, inLen int, seed uint64, fullSig bool) []simos.Plan {
 	r := sim.NewRng(seed)
 	var out []simos.Plan
 	for i, k := range kinds {
@@ -279,6 +281,17 @@ func planList(kinds []string, nmeta int, armedMuts []int, armedReads int, inPath
 	for i := range kinds {
 		at := i + 1
 		combos := [][2]int{{0, 0}, {1, 0}, {0, 2}, {r.Range(0, 4), r.Range(0, 4)}, {r.Range(2, 12), r.Range(0, 2)}}
+		if fullSig {
+			// every placement of "remove the temporary file" and "exit 7" among
+			// the operations main still has to perform (rem+1 slots each)
+			combos = combos[:0]
+			rem := len(kinds) - at + 1
+			for a := 0; a <= rem; a++ {
+				for b := 0; a+b <= rem; b++ {
+					combos = append(combos, [2]int{a, b})
+				}
+			}
+		}
 		if !armed[at] {
 			combos = combos[:1] // no handler listens there: default action, one plan is enough
 		}
@@ -565,7 +578,7 @@ func runC10(c *GCase, x *sim.Ctx) *sim.Violation {
 		return nil
 	}
 	inLen := len(j.orig)
-	plans := planList(kinds, wf.NMeta, wf.ArmedMuts, wf.ArmedReads, j.in, inLen, c.PartialSeed)
+	plans := planList(kinds, wf.NMeta, wf.ArmedMuts, wf.ArmedReads, j.in, inLen, c.PartialSeed, c.FullSig)
 	for pi, p := range plans {
 		if c.HasOnly && pi != c.Only {
 			continue
